@@ -492,14 +492,9 @@ def run(prop, tier):
     if prop == "C02":
         V.extra["pair_family_cases"] = len(c02_pair_family())
         V.extra["pair_family_exhaustive"] = True
-    floors = {"C01": ("judged_rows", 1000), "C02": ("judged_loss_sales", 500),
-              "C03": ("judged_c03_prefixes", 500), "C04": ("judged_rejected_by_model", 50)}
-    key, fl = floors[prop]
-    if V.extra.get(key, 0) < fl:
-        print("INCONCLUSIVE reason=monitor judged too little (%s=%s < %d)" % (key, V.extra.get(key, 0), fl))
-        V.finish()
-        return 2
-    return V.finish(floor_eval=100, floor_nontrivial=10)
+    floors = {"C01": {"judged_rows": 1000}, "C02": {"judged_loss_sales": 500},
+              "C03": {"judged_c03_prefixes": 500}, "C04": {"judged_rejected_by_model": 50}}
+    return V.finish(floor_eval=100, floor_nontrivial=10, floors=floors[prop])
 
 
 def replay(rec):
